@@ -157,9 +157,11 @@ class Ctx:
 
     # ------------------------------------------------------------------ path feasibility (makes slicing exact)
     def path_feasible(self, st):
-        key = id(st)
-        r = self.path_status.get(key)
+        # cached on the state itself (python object ids are reused after garbage collection, so an id-keyed cache
+        # can hand a stale verdict and model to a different path)
+        r = st.ghost.get('_pf')
         if r is not None and r[1] == len(st.pc):
+            self._pm = r[2]
             return r[0]
         s = z3.Solver()
         s.set('timeout', PATH_FEAS_MS)
@@ -170,8 +172,9 @@ class Ctx:
         res = s.check()
         self.ob.solver_s += time.time() - t0
         out = 'sat' if res == z3.sat else ('unsat' if res == z3.unsat else 'unknown')
-        self.path_status[key] = (out, len(st.pc))
-        self.path_model[key] = s.model() if res == z3.sat else None
+        pm = s.model() if res == z3.sat else None
+        st.ghost['_pf'] = (out, len(st.pc), pm)
+        self._pm = pm
         return out
 
     # ------------------------------------------------------------------ deferred queries
@@ -242,7 +245,7 @@ class Ctx:
             s.add(c)
         # variables outside the slice take their values from the model of the whole path condition
         base = {}
-        pm = self.path_model.get(id(st))
+        pm = self._pm
         if pf == 'sat' and pm is not None:
             for label, v in (model_vars or {}).items():
                 if isinstance(v, (int, bool)):
